@@ -403,7 +403,7 @@ JoinMenu == {
 }
 \* C05: a joined file that does not exist / an ON column the joined table lacks is an error -- with any LIMIT (LIMIT 0 included), with or without input
 BadJoinMenu == {[s EXCEPT !.join = j, !.limit = n] : s \in {Star(NoE, FALSE, NoLimit, "inner"), Sel(<<P(K, "")>>, NoE, TRUE, NoLimit, "inner"),
-                                                            Agg(<<KeyK, CountStar>>, <<K>>, NoE, NoH, FALSE, NoLimit, "inner")}, j \in {"badfile", "badcol", "dirfile"}, n \in {NoLimit, 0, 1}}
+                                                            Agg(<<KeyK, CountStar>>, <<K>>, NoE, NoH, FALSE, NoLimit, "inner")}, j \in {"badfile", "badcol", "dirfile", "badqcol", "badqcolouter"}, n \in {NoLimit, 0, 1}}
 
 \* C16: every consumer of the value order on every pair of same-kind values of the boundary universe
 Renderable(x) == ~IsNull(x) /\ (x.t = "arr" => (x.xs # <<>> /\ \E i \in 1..Len(x.xs) : ~IsNull(x.xs[i])))
